@@ -166,7 +166,9 @@ def run_function(prog: Program, resolver: Resolver, qual: str, layers: Tuple[str
             o.path = list(o.path) + extra
             o.ren = {**it.active_ren, **o.ren}
             o.trivial = list(it.active_trivial) + list(o.trivial)
-        outs += res
+        # a combination of choices that states contradictory sign facts about one name (abs took x >= 0, a conditional x < 0)
+        # is not a path of the program
+        outs += [o for o in res if Interp._consistent(o.path)]
         for i in range(len(plan), len(it.choice_log)):
             for j in range(1, it.choice_log[i]):
                 plans.append(plan + [0] * (i - len(plan)) + [j])
